@@ -58,6 +58,30 @@ class C06(Prop):
         return 220 if tier == "quick" else 4000
 
     def gen_case(self, rng):
+        if rng.chance(1, 5):
+            # a single rule whose condition is decidable before the string scan only through its scan-free
+            # part: sibling loops / connectives where the first operand needs strings
+            names = ["_a0", "_d1"]
+            strings = [["_a0", [97, 98]], ["_d1", [97]]]
+            lo = rng.choice([2, 3, 5])
+            first_body = rng.choice([("varat", 0, ("bound", 0)), ("bin", "eq", ("count", 1), ("bound", 0)),
+                                     ("var", rng.below(2))])
+            k1 = rng.choice(["any", "all", "none"])
+            first = rng.choice([("forrange", k1, None, ("int", lo), ("int", lo + rng.choice([0, 1])), first_body),
+                                ("forlist", k1, None, [("int", lo), ("int", lo + 1)], first_body)])
+            probe = rng.choice([("bin", "eq", ("bound", 0), ("int", lo + rng.choice([0, 1]))),
+                                ("bin", "ge", ("bound", 0), ("int", lo)),
+                                ("bin", "eq", ("readint", "uint8", ("bound", 0)), ("int", rng.choice([97, 98, 99])))])
+            k2 = rng.choice(["any", "all", "none"])
+            second = rng.choice([("forrange", k2, None, ("int", 0), ("int", rng.choice([0, 1])), probe),
+                                 ("forlist", k2, None, [("int", 0), ("int", 1)], probe)])
+            c = (rng.choice(["or", "and"]), [first, second])
+            if rng.chance(1, 3):
+                c = ("un", "not", c)
+            rs = {"nns": 1, "rules": [{"id": 0, "ns": 0, "name": "r0", "global": False, "private": False,
+                                       "ord_index": 0, "strings": strings, "cond": c}]}
+            rs = json.loads(json.dumps(rs))
+            return {"rs": rs, "mem": rng.choice(ruleset.MEMS).hex()}
         rs = ruleset.gen_ruleset(rng, max_rules=4, depth=3, poison=60)
         mem = rng.choice(ruleset.MEMS)
         return {"rs": rs, "mem": mem.hex()}
